@@ -144,3 +144,26 @@ def enumerate_schedules(scn, check_case, acc, max_dev, base_extra=None, max_runs
                 for pk in range(1, counts[pos]):
                     stack.append(devs + ((pos, pk),))
     return runs, complete
+
+
+# ------------------------------------------------------------------------------------------
+# monitor-based analysers
+
+def monitor_failures(case, res, prefix, sig_fn=None):
+    """run the history monitor over the trace; return (failures of this property, monitor, n_other)"""
+    from mvf import monitor
+    mon = monitor.Monitor(case["scenario"])
+    viol = mon.run(res)
+    fails, other = [], 0
+    for v in viol:
+        if v["rule"].startswith(prefix + "."):
+            sig = sig_fn(v, case, res) if sig_fn else v["rule"]
+            fails.append(Failure(v["rule"], sig, v["msg"]))
+        else:
+            other += 1
+    return fails, mon, other
+
+
+def aborted_by_other(res):
+    """the run was cut short by a failure that belongs to another property (C05 / C06)"""
+    return res.outcome in ("exception", "deadlock", "livelock", "runaway", "build_error")
